@@ -105,3 +105,47 @@ func Requests(t *rapid.T, regs []rt.Reg, max int) []rt.Req {
 	}
 	return out
 }
+
+// WideSet draws a route set in which one tree node gets many siblings (13..30)
+// of mixed kinds - far more than application code usually has, but ordering
+// among siblings is exactly what the priority rules speak about. The siblings
+// are leaves, subtrees (a common tail is appended) or both.
+func WideSet(t *rapid.T) []rt.Reg {
+	var prefix []model.Seg
+	for i, n := 0, rapid.IntRange(0, 2).Draw(t, "nprefix"); i < n; i++ {
+		prefix = append(prefix, model.Seg{Elems: []model.Elem{{Lit: pick(t, "plit", []string{"items", "v1", "a"})}}})
+	}
+	n := rapid.IntRange(13, 30).Draw(t, "nsiblings")
+	g := model.NewRegistrar()
+	var regs []rt.Reg
+	static := 0
+	for i := 0; i < n; i++ {
+		var s model.Seg
+		used := map[string]bool{}
+		switch w := rapid.IntRange(0, 9).Draw(t, "wk"); {
+		case w < 5:
+			s = model.Seg{Elems: []model.Elem{{Lit: "s" + string(rune('a'+static%26)) + string(rune('0'+static/26))}}}
+			static++
+		case w < 7:
+			s = RegexSeg(t, used, false)
+		case w < 9:
+			s = model.Seg{Elems: []model.Elem{{Bind: pick(t, "pname", []string{"a", "b", "c", "id", "x"})}}}
+		default:
+			s = MatchAllSeg(t, used, false)
+		}
+		segs := append(append([]model.Seg(nil), prefix...), s)
+		switch rapid.IntRange(0, 2).Draw(t, "tail") {
+		case 1:
+			segs = append(segs, model.Seg{Elems: []model.Elem{{Lit: "t"}}})
+		case 2:
+			segs = append(segs, model.Seg{Elems: []model.Elem{{Lit: "t"}}, Optional: true})
+		}
+		r := model.Route{Segs: segs}
+		if v, _ := g.Check("GET", r); v != model.MustAccept {
+			continue
+		}
+		g.Add("GET", r)
+		regs = append(regs, rt.Reg{M: "GET", R: r.Source()})
+	}
+	return regs
+}
